@@ -47,8 +47,13 @@ func newUpdateInterceptor(filter updateFilter) *updateInterceptor {
 }
 
 func (ui *updateInterceptor) HandleUpdate(u ChannelUpdate, r *UpdateResponder) {
-	ui.update <- updateAndResponder{u, r}
-	<-ui.response
+	select {
+	case ui.update <- updateAndResponder{u, r}:
+		<-ui.response
+	case <-ui.response:
+		// The interceptor has been released (response is closed): nobody is
+		// going to accept the update anymore.
+	}
 }
 
 func (ui *updateInterceptor) Accept(ctx context.Context) error {
